@@ -6,7 +6,6 @@ NA_REASONS = {
     "C06": "'Equal names => equal arrays' is a statement about tokenize (hashing/pickling loops over bytes) and process-global registries; a collision is a hash/registry fact, not arithmetic an SMT encoding of the code can reach.",
     "C07": "Determinism across processes and pickle round trips: serialization and hashing live behind C code and whole-process runs; nothing symbolic to execute.",
     "C10": "Thread schedules and in-place mutation of NumPy buffers by C kernels (views vs copies): concurrency and FFI are outside what the engine can model.",
-    "C20": "block_info payloads are concrete literals computed inside map_blocks and the property is about which rewrites may cross ChunksFreeze -- object-graph behaviour of nodes that content-hash their operands.",
     "C21": "GraphRecordsLayer is structural translation of Task objects; no numeric kernel, and equality of two task graphs on concrete programs would be enumeration, not solving.",
     "C22": "Rust/PyO3 layers: no Rust symbolic engine (Kani) is installed and the extension is not built in the baseline environment.",
     "C23": "RNG state, seed spawning and bit generators are C code with hidden mutable state.",
@@ -203,6 +202,20 @@ check("C11",
       "and which copy is written from NumPy's documentation). NOT decided (stated): compute_chunk_sizes, the collection-level "
       "bookkeeping of out= (handle_out), mask propagation of masked values, array/boolean/dask keys.",
       "DESIGN.md 6 C11")
+
+check("C20",
+      "Solver-decided for map_blocks calls with one array input whose function reads block_info (or block_id), placed in ten "
+      "enumerated programs with rewrites above the call (slice, transpose, rechunk) and below it (a rechunk the optimizer "
+      "absorbs into the source, an unaligned element-wise operation, a slice, the native sliding-window substitution that "
+      "trades advertised chunks for native ones), over sources with symbolic, unbounded chunk sizes, slice bounds and data: the "
+      "real map_blocks builds the payloads and the ChunksFreeze wrapping on symbolic sizes; every form the repository's "
+      "optimizer produces (raw, lowered, fused, materialized with optimization on/off) is executed from its real layers; the "
+      "user function obliges each block to have exactly the extent its payload describes (input and output entries, "
+      "chunk-shape) and adds the reported start offset to the values, and the result equals the reference written from the "
+      "layout advertised when the call was made.",
+      "Trusted: as C01. Outside: several array inputs, new_axis/drop_axis, explicit chunks=, impure user functions, more "
+      "placements than the enumerated ones.",
+      "DESIGN.md 6 C20", technique="bounded symbolic execution of the repo's own optimizer pipeline and layers on symbolic-size expression trees (symx nodes) + symbolic-array graph execution + z3 SMT (QF_UFLIRA)")
 
 CAT = ("an enumerated catalogue of ~90 programs (sources incl. zero-width chunks, transpose, expand_dims, broadcast_to, basic "
        "slices incl. newaxis and negative steps, integer-list indices, .vindex, rechunk, element-wise with aligned / unaligned / "
